@@ -74,6 +74,7 @@ type c01Tx struct {
 	From, To int
 	Amount   uint64
 	GasPrice uint64
+	Drain    bool // send the sender's whole balance as of the start of the block (the balance key gets deleted)
 }
 
 var c01Points = []string{"pre-block-commit", "post-block-commit", "post-event-commit", "post-state-commit"}
@@ -102,8 +103,13 @@ func TestC01_CrashPointRecovery(t *testing.T) {
 					from = 0 // only the bookkeeper is funded at the start
 				}
 				amt := rapid.OneOf(rapid.Uint64Range(0, 3), rapid.Uint64Range(1, 100000), rapid.Just(uint64(2000000000))).Draw(t, "amt")
+				drain := i > 0 && from != 0 && rapid.IntRange(0, 2).Draw(t, "drain") == 0
+				gp := rapid.SampledFrom([]uint64{0, 0, 2500}).Draw(t, "gp")
+				if drain {
+					gp = 0
+				}
 				plan[i] = append(plan[i], c01Tx{Tok: rapid.IntRange(0, 1).Draw(t, "tok"), From: from, To: rapid.IntRange(0, 3).Draw(t, "to"),
-					Amount: amt, GasPrice: rapid.SampledFrom([]uint64{0, 0, 2500}).Draw(t, "gp")})
+					Amount: amt, GasPrice: gp, Drain: drain})
 			}
 		}
 		tornSeed := rapid.IntRange(1, 95).Draw(t, "torn")
@@ -151,7 +157,15 @@ func TestC01_CrashPointRecovery(t *testing.T) {
 				if p.Tok == 1 {
 					tok = nutils.OngContractAddress
 				}
-				tx, err := ch.Transfer(tok, users[p.From], users[p.To].Address, p.Amount, p.GasPrice, 20000)
+				amount := p.Amount
+				if p.Drain {
+					// whole balance as committed before this block: a successful drain deletes the balance key
+					if v, _ := ch.LS.GetStorageItem(tok, users[p.From].Address[:]); len(v) == 8 {
+						amount = uint64(v[0]) | uint64(v[1])<<8 | uint64(v[2])<<16 | uint64(v[3])<<24 | uint64(v[4])<<32 | uint64(v[5])<<40 | uint64(v[6])<<48 | uint64(v[7])<<56
+						ev.Class("tx:drain-whole-balance")
+					}
+				}
+				tx, err := ch.Transfer(tok, users[p.From], users[p.To].Address, amount, p.GasPrice, 20000)
 				if err != nil {
 					t.Fatal(err)
 				}
